@@ -22,10 +22,16 @@ pub trait Dom: num::Float + std::fmt::Debug + Send + 'static {
     fn term_id(self) -> u64;
     /// if the value is structurally `num / sqrt(rad)` (a term the real code built), its two parts
     fn ratio_sqrt_parts(self) -> Option<(Self, Self)> { None }
+    /// `a == b` as an auxiliary fact, available only when the engine establishes it as a polynomial identity (None otherwise)
+    fn lemma_eq(_a: Self, _b: Self) -> Option<Cond<Self>> { None }
+    /// alternative formulations, the general one last (see Ctx::oblige_alt); natively only the general one is evaluated
+    fn oblige_alt(label: &str, mut alts: Vec<Cond<Self>>) { let g = alts.pop().expect("formulation"); Self::oblige(label, g) }
     /// an input assumed to lie in [-1,1]
     fn input_unit(name: &str) -> Self { let x = Self::input(name); Self::assume(Cond::And(vec![Cond::Le(x, Self::one()), Cond::Le(-Self::one(), x)])); x }
     /// |x| <= bound, for x a linear form over `input_unit` variables (see Ctx::oblige_abs_le_boxed)
     fn oblige_abs_le_boxed(label: &str, x: Self, bound: f64) { Self::oblige(label, Cond::And(vec![Cond::Le(x, Self::c(bound)), Cond::Le(-Self::c(bound), x)])) }
+    /// if the value is structurally `sqrt(rad)`, the radicand
+    fn sqrt_part(self) -> Option<Self> { None }
     /// if the value is structurally `num / den`, its two parts
     fn ratio_parts(self) -> Option<(Self, Self)> { None }
 }
@@ -56,7 +62,10 @@ impl Dom for Sym {
         else { let one = <Sym as num::One>::one(); Sym::assume(Cond::And(vec![Cond::Le(x, one), Cond::Le(-one, x)])); }
         x
     }
+    fn lemma_eq(a: Sym, b: Sym) -> Option<Cond<Sym>> { sym::with(|c| c.lemma_eq(a, b)) }
+    fn oblige_alt(label: &str, alts: Vec<Cond<Sym>>) { sym::with(|c| c.oblige_alt(label, alts)) }
     fn oblige_abs_le_boxed(label: &str, x: Sym, bound: f64) { sym::with(|c| c.oblige_abs_le_boxed(label, x, sym::f64_rat(bound))) }
+    fn sqrt_part(self) -> Option<Sym> { if let sym::Node::Sqrt(c) = sym::node_of(self) { Some(Sym(c)) } else { None } }
     fn ratio_parts(self) -> Option<(Sym, Sym)> { if let sym::Node::Div(a, b) = sym::node_of(self) { Some((Sym(a), Sym(b))) } else { None } }
 }
 
@@ -80,6 +89,7 @@ fn eval(c: &Cond<f64>, strict: bool) -> bool {
         Cond::Eq(a, b) => if a == b { true } else if strict { false } else { (a - b).abs() <= scale(*a, *b) },
         Cond::Ne(a, b) => if strict { (a - b).abs() > scale(*a, *b) } else { a != b },
         Cond::Ident(a, b) => a.to_bits() == b.to_bits(),
+        Cond::Lemma(a, b) => if strict { a == b } else { (a - b).abs() <= scale(*a, *b) * 10.0 },
         Cond::And(v) => v.iter().all(|x| eval(x, strict)),
         Cond::Or(v) => v.iter().any(|x| eval(x, strict)),
         Cond::Not(x) => !eval(x, !strict),
@@ -107,6 +117,17 @@ pub fn window<T>(h: &[T], n: usize) -> &[T] { &h[h.len().saturating_sub(n)..] }
 pub fn eq<T: Dom>(a: T, b: T) -> Cond<T> { Cond::Eq(a, b) }
 pub fn le<T: Dom>(a: T, b: T) -> Cond<T> { Cond::Le(a, b) }
 pub fn lt<T: Dom>(a: T, b: T) -> Cond<T> { Cond::Lt(a, b) }
+/// q == k*p for two outputs that may be structurally num/sqrt(rad) (k = +1, -1 or a positive scale `a` whose square is `k2`):
+/// first the sufficient polynomial condition on the parts (num_q == k num_p, rad_q == k^2 rad_p ... for k = +-1: rad equal), then the general one
+pub fn rel_alts<T: Dom>(q: T, p: T, k: T, general: Cond<T>, out_scales: bool) -> Vec<Cond<T>> {
+    let mut v = vec![];
+    if let (Some((nq, rq)), Some((np, rp))) = (q.ratio_sqrt_parts(), p.ratio_sqrt_parts()) {
+        // out_scales = false: q == sign(k) * p expected when inputs are scaled by |k| (num scales by k, radicand by k^2)
+        if out_scales { v.push(Cond::And(vec![Cond::Eq(nq, k * np), Cond::Eq(rq, rp)])); } else { v.push(Cond::And(vec![Cond::Eq(nq, k * np), Cond::Eq(rq, k * k * rp)])); }
+    }
+    v.push(general);
+    v
+}
 pub fn opt_eq<T: Dom>(a: Option<T>, b: Option<T>) -> Cond<T> { match (a, b) { (None, None) => Cond::Bool(true), (Some(x), Some(y)) => Cond::Eq(x, y), _ => Cond::Bool(false) } }
 pub fn opt_ident<T: Dom>(a: Option<T>, b: Option<T>) -> Cond<T> { match (a, b) { (None, None) => Cond::Bool(true), (Some(x), Some(y)) => Cond::Ident(x, y), _ => Cond::Bool(false) } }
 /// |a - b| <= tol
